@@ -137,3 +137,27 @@ Theorem c12_code_get_wpa_data_refines_model : forall f a rho mc,
 Proof. exact code_get_wpa_data_refines_model. Qed.
 Print Assumptions c12_code_get_wpa_data_refines_model.
 
+(* ---- libwifi_get_wpa_message_string AS TRANSLATED (Gen/Sites.v): one call of the message classifier, then the literal for its answer ---- *)
+From LW Require Import Base.Sweep Gen.Consts Proofs.CodeNames.
+Local Open Scope list_scope.
+
+(* for every answer of the classifier: Message 1..4 for 1, 2, 4, 8, Invalid for everything else; exactly one call *)
+Theorem c12_code_get_wpa_message_string : forall f m rho tr,
+  let v := wrap s32 (rho "ret:libwifi_check_wpa_message") in
+  exec (S (S (S (S f)))) m rho tr body_libwifi_get_wpa_message_string =
+  Returned (Some (wrap u64 (rho ("str:" ++ wpa_message_name v)%string))) (upd rho "message" v)
+           (tr ++ [("libwifi_check_wpa_message", [wrap u64 (rho "frame")])]).
+Proof. exact code_get_wpa_message_string. Qed.
+Print Assumptions c12_code_get_wpa_message_string.
+
+(* with the answer Model/Eapol.v computes for the frame *)
+Theorem c12_code_get_wpa_message_string_model : forall fr v f m rho tr,
+  check_wpa_message fr = Done v -> rho "ret:libwifi_check_wpa_message" = v ->
+  exec (S (S (S (S f)))) m rho tr body_libwifi_get_wpa_message_string =
+  Returned (Some (wrap u64 (rho ("str:" ++ wpa_message_name v)%string))) (upd rho "message" v)
+           (tr ++ [("libwifi_check_wpa_message", [wrap u64 (rho "frame")])]) /\
+  (exists s, lookup_z v wpa_message_table = Some s /\ wpa_message_name v = s) /\
+  (wpa_message_name v = "Invalid" <-> v = c_HANDSHAKE_INVALID).
+Proof. exact code_get_wpa_message_string_model. Qed.
+Print Assumptions c12_code_get_wpa_message_string_model.
+
